@@ -490,7 +490,13 @@ func (b *Blockchain) EventFilter(
 
 // RevertHead reverts the head block
 func (b *Blockchain) RevertHead() error {
-	return b.stateBackend.RevertHead()
+	if err := b.stateBackend.RevertHead(); err != nil {
+		return err
+	}
+	// The revert may have re-opened (and will re-persist) a bloom window that a query already
+	// cached: drop the cached windows so that event queries do not keep using the pre-reorg one.
+	b.cachedFilters.Reset()
+	return nil
 }
 
 func (b *Blockchain) GetReverseStateDiff() (core.StateDiff, error) {
